@@ -1,5 +1,115 @@
-import DisjointImpls.RevSub
+/-
+  C10 — reverse substitution (`Substitutions::substitute`, model `RevSub.lean`): property theorems.
+  All proofs are in `Lemmas/RevSubLemmas.lean`; this file only states the properties, the
+  counterexamples showing that each hypothesis of `C10_roundtrip` is needed, and D13.
+
+  `Untouched σ t` (`untouched σ t = true`, executable) follows the recursion of `revSub (reverseMap σ)`:
+  nothing is required below a sub-term that is replaced by parameters; a parameter that is reached and
+  left in place must be fixed by σ (unbound, `identity`, or bound to itself); a child kept verbatim
+  (`Ign`, `IgnL`, `Eq`) must be invariant under σ; a parameter left in place as the lone generic type
+  argument `GenericArgument::Type [] [tparam n]` must not be bound to a const value.
+-/
+import DisjointImpls.Lemmas.RevSubLemmas
 namespace DI
-theorem C10_placeholder : revSub [] (.tparam "_ŠČ0") = [.tparam "_ŠČ0"] := by
+
+/-! ## Theorems -/
+
+/-- the result is never empty -/
+theorem C10_nonempty (rm : RevMap) (t : T) : revSub rm t ≠ [] := revSub_ne_nil rm t
+
+theorem C10_bound_nonempty (σ : Subst) (b tr : T) : substituteBound σ b tr ≠ [] := by
+  obtain ⟨x, hx⟩ := List.exists_mem_of_ne_nil _ (revSub_ne_nil (reverseMap σ) b)
+  obtain ⟨y, hy⟩ := List.exists_mem_of_ne_nil _ (revSub_ne_nil (reverseMap σ) tr)
+  apply List.ne_nil_of_mem (a := (x, y))
+  simp only [substituteBound, List.mem_flatMap, List.mem_map]
+  exact ⟨x, hx, y, hy, rfl⟩
+
+/-- under a substitution whose values are all `identity` the bound is returned unchanged -/
+theorem C10_identity (σ : Subst) (h : allIdentity σ = true) (t : T) : revSub (reverseMap σ) t = [t] :=
+  revSub_of_no_hit _ (fun _ hv => reverseMap_find_identity h hv) t
+
+theorem C10_bound_identity (σ : Subst) (h : allIdentity σ = true) (b tr : T) :
+    substituteBound σ b tr = [(b, tr)] := by
+  simp [substituteBound, C10_identity σ h]
+
+/-- substituting the parameters back yields the original term: for a substitution with distinct keys, every
+    re-expression `r` of `t` satisfies `inst σ r = t`, provided the parameters of `t` that were left in place
+    are fixed by σ -/
+theorem C10_roundtrip (σ : Subst) (hσ : (σ.map Prod.fst).Nodup) (t : T) (hfix : Untouched σ t) :
+    ∀ r ∈ revSub (reverseMap σ) t, inst σ r = t :=
+  roundtrip_all hσ t hfix
+
+theorem C10_bound_roundtrip (σ : Subst) (hσ : (σ.map Prod.fst).Nodup) (b tr : T)
+    (hb : Untouched σ b) (ht : Untouched σ tr) :
+    ∀ p ∈ substituteBound σ b tr, inst σ p.1 = b ∧ inst σ p.2 = tr := by
+  intro p hp
+  simp only [substituteBound, List.mem_flatMap, List.mem_map] at hp
+  obtain ⟨x, hx, y, hy, rfl⟩ := hp
+  exact ⟨C10_roundtrip σ hσ b hb x hx, C10_roundtrip σ hσ tr ht y hy⟩
+
+/-- exactly one re-expression per choice: the results are pairwise distinct -/
+theorem C10_nodup (σ : Subst) (hσ : (σ.map Prod.fst).Nodup) (t : T) : (revSub (reverseMap σ) t).Nodup :=
+  revSub_nodup hσ t
+
+/-! ## Counterexamples -/
+
+section Counterexamples
+set_option maxRecDepth 8000
+
+private def leaf (s : String) : T := .node s [] []
+
+/-- D13: a parameter bound by `identity` is not offered as an alternative -/
+theorem C10_identity_alias_counterexample :
+    revSub (reverseMap [("_ŠČ0", .identity), ("_ŠČ1", .ty (.tparam "_ŠČ0"))]) (.tparam "_ŠČ0") = [.tparam "_ŠČ1"] := by
   decide
+
+/-- D4, `Untouched` is needed: a bound outside the image of σ — the parameter is left in place and σ
+    re-binds it. -/
+theorem C10_roundtrip_counterexample_untouched :
+    let σ : Subst := [("_ŠČ0", .ty (leaf "u8"))]
+    (σ.map Prod.fst).Nodup ∧ untouched σ (.tparam "_ŠČ0") = false ∧
+    revSub (reverseMap σ) (.tparam "_ŠČ0") = [.tparam "_ŠČ0"] ∧ inst σ (.tparam "_ŠČ0") ≠ .tparam "_ŠČ0" := by
+  decide
+
+/-- the generic-argument clause of `Untouched` is needed: `tyFixed` alone accepts a type parameter bound to
+    a const value, but `inst` turns the argument it stands in into a const argument. -/
+theorem C10_roundtrip_counterexample_const_arg :
+    let σ : Subst := [("_ŠČ0", .ex (leaf "E"))]
+    let t : T := .node "GenericArgument::Type" [] [.tparam "_ŠČ0"]
+    (σ.map Prod.fst).Nodup ∧ tyFixed σ "_ŠČ0" = true ∧ untouched σ t = false ∧
+    revSub (reverseMap σ) t = [t] ∧ inst σ t ≠ t := by
+  with_unfolding_all decide
+
+/-- distinct keys are needed: with a key bound twice `lookup` sees the first binding only. -/
+theorem C10_roundtrip_counterexample_keys :
+    let σ : Subst := [("_ŠČ0", .ty (leaf "Type::A")), ("_ŠČ0", .ty (leaf "Type::B"))]
+    untouched σ (leaf "Type::B") = true ∧
+    revSub (reverseMap σ) (leaf "Type::B") = [.tparam "_ŠČ0"] ∧ inst σ (.tparam "_ŠČ0") ≠ leaf "Type::B" := by
+  with_unfolding_all decide
+
+/-- a child kept verbatim must be invariant: parameters beneath `Ign` are not rewritten but `inst` reaches them. -/
+theorem C10_roundtrip_counterexample_verbatim :
+    let σ : Subst := [("_ŠČ0", .ty (leaf "u8"))]
+    let t : T := .node "Ign" [] [.tparam "_ŠČ0"]
+    (σ.map Prod.fst).Nodup ∧ untouched σ t = false ∧ revSub (reverseMap σ) t = [t] ∧ inst σ t ≠ t := by
+  with_unfolding_all decide
+
+/-- non-vacuity: the header pair `(_ŠČ0, _ŠČ1)` against `(Vec<_ŠČ0>, Vec<_ŠČ0>)` (a non-injective σ) and the bound
+    `Option<Vec<_ŠČ0>>`: two re-expressions, both instantiate back to the bound. -/
+example :
+    let vec : T := .node "Type::Path" [] [leaf "None", .node "Path" [] [.node "IgnL" [] [leaf "None"],
+      .node "List" [] [.node "PathSegment" [] [.node "Ident" ["Vec"] [],
+        .node "PathArguments::AngleBracketed" [] [.node "List" [] [.node "GenericArgument::Type" [] [.tparam "_ŠČ0"]]]]]]]
+    let opt (x : T) : T := .node "Type::Path" [] [leaf "None", .node "Path" [] [.node "IgnL" [] [leaf "None"],
+      .node "List" [] [.node "PathSegment" [] [.node "Ident" ["Option"] [],
+        .node "PathArguments::AngleBracketed" [] [.node "List" [] [.node "GenericArgument::Type" [] [x]]]]]]]
+    let σ : Subst := [("_ŠČ0", .ty vec), ("_ŠČ1", .ty vec)]
+    sup (.node "Type::Tuple" [] [.tparam "_ŠČ0", .tparam "_ŠČ1"]) (.node "Type::Tuple" [] [vec, vec]) = .yes σ false ∧
+    (σ.map Prod.fst).Nodup ∧ untouched σ (opt vec) = true ∧
+    revSub (reverseMap σ) (opt vec) = [opt (.tparam "_ŠČ0"), opt (.tparam "_ŠČ1")] ∧
+    inst σ (opt (.tparam "_ŠČ0")) = opt vec ∧ inst σ (opt (.tparam "_ŠČ1")) = opt vec := by
+  with_unfolding_all decide
+
+end Counterexamples
+
 end DI
